@@ -65,6 +65,10 @@ __tok_spec(const char *fp, const char **ep)
 next:
 	switch (*++fp) {
 	default:
+		if (*fp == '\0') {
+			/* format ends inside a specifier, don't step over the NUL */
+			fp--;
+		}
 		goto out;
 	case 'F':
 		res.spfl = DT_SPFL_N_DSTD;
